@@ -67,7 +67,7 @@ class BlockCentroids(Scenario):
                 exp = (o[0] + c * u - s * v, o[1] + s * u + c * v, o[2] + w)
                 cx.prove(And([eq(ce[idx * 3 + a], exp[a]) for a in range(3)]),
                          f"cell ({i},{j},{k}) at index k+i*nZ+j*nU*nZ = origin + Rz(mid-points)", "block-model centre formula")
-            cx.observe("centroids", ce)
+            cx.observe("~centroids", ce)   # depends on uninterpreted cos/sin
             return "ok"
 
 
@@ -108,7 +108,7 @@ class GridCentroids(Scenario):
                 exp = (o[0] + c * x1 - s * y1, o[1] + s * x1 + c * y1, o[2] + z1)
                 cx.prove(And([eq(ce[idx * 3 + a], exp[a]) for a in range(3)]),
                          f"cell ({i},{j}) at index i+j*nU = origin + Rz Rx(dip) (u,v,0)", "grid centre formula")
-            cx.observe("centroids", ce)
+            cx.observe("~centroids", ce)   # depends on uninterpreted cos/sin
             return "ok"
 
 
@@ -169,7 +169,7 @@ class OctreeCentroids(Scenario):
                 exp = (o[0] + c * u - s * v, o[1] + s * u + c * v, o[2] + w)
                 cx.prove(And([eq(ce[q * 3 + a], exp[a]) for a in range(3)]),
                          f"octree cell {q}: centre = origin + Rz((I+N/2)du, (J+N/2)dv, (K+N/2)dw)", "octree centre formula")
-            cx.observe("centroids", ce)
+            cx.observe("~centroids", ce)   # depends on uninterpreted cos/sin
             return "ok"
 
 
